@@ -9,7 +9,7 @@
 (*       u: reported as undefined (None / NaN); n/d: value snapped to a    *)
 (*       rational; ok: the snap is exact to 1e-9 relative                   *)
 (*     square-rooted quantities are carried squared (rmse2, cvrmse2, ...)  *)
-(*  in.kind = "gate":  [cv, pn] each in {"none", "below", "equal", "above"} *)
+(*  in.kind = "gate":  [cv, pn] each in {"none", "low", "mid", "high", "eqown"} *)
 (*     out = [res, poor]   the hourly poor-fit decision                    *)
 (*  in.kind = "stored": [fam, name]  a real fit                            *)
 (*     out = [res, same]   stored metrics = metrics of predict(baseline)   *)
@@ -77,7 +77,10 @@ Names == {"n", "sse", "mse", "rmse2", "rmseadj2", "mae", "mbe", "cvrmse2", "cvrm
 Ratios == {"cvrmse2", "cvrmseadj2", "nmae", "nmbe", "pnrmse2"}
 Agrees(e, g) == IF e.u THEN g.u ELSE (~g.u /\ g.ok /\ g.d > 0 /\ g.n * e.v[2] = e.v[1] * g.d)
 
-HourlyPoor(cv, pn) == ~(cv = "below" \/ pn = "below")        \* a statistic that is undefined or not below its threshold is a miss
+\* value classes of a statistic relative to BOTH thresholds (CVRMSE's is the smaller one): "none" (undefined), "low" (below
+\* both), "mid" (between them), "high" (above both), "eqown" (exactly its own threshold)
+BelowOwn(which, cls) == cls = "low" \/ (which = "pn" /\ cls = "mid")
+HourlyPoor(cv, pn) == ~(BelowOwn("cv", cv) \/ BelowOwn("pn", pn))   \* a statistic that is undefined or not below its own threshold is a miss
 
 Clauses(in, out) ==
   CASE in.kind = "stats" ->
